@@ -2,6 +2,7 @@ import PyTrie.Lemmas.MissingProofs
 import PyTrie.Lemmas.MissingPath
 import PyTrie.Lemmas.RawPartial
 import PyTrie.Lemmas.ReadPartial
+import PyTrie.Lemmas.RawAtomic
 /-! # C07 — missing nodes: operations fail atomically and report the truth
 
 `opGet`, `opTraverse`, `opSetDel` are `get`, `traverse`/`traverse_from`, `set`/`delete` over a store
@@ -180,5 +181,43 @@ theorem raw_get_partial (H : Bytes → Bytes) (hlen : ∀ b, (H b).length = 32) 
         | some (h, pre) => .error (.missing h pre)
         | none => .ok (Hex.get t k) :=
   getD_partial H hlen db root t hc hroot hst k
+
+end PyTrie.Props.C07
+
+/-! ## Raw level: a failed call has written nothing
+
+`Model/HexRawT.lean` is the raw-level write path returning the state also when an exception leaves it (the Python
+mutates `self.db` in place; `Model/HexRaw.lean` drops the state on an exception). The two agree on every input, and
+**for every input whatsoever** — any raw node, any database, any key — a `_set` / `_delete` / `set` / `delete` that
+stops at a missing node leaves the database exactly as it was; only fetches and prune marks were recorded. -/
+namespace PyTrie.Props.C07
+open PyTrie PyTrie.Hex PyTrie.HexD PyTrie.HexRaw PyTrie.HexRawT
+
+theorem rawT_set_agrees (H : Bytes → Bytes) (fuel : Nat) (st : HexRaw.St) (node : Item) (key : Path) (value : Bytes) :
+    rawSet H fuel st node key value = forget (rawSetT H fuel st node key value) := rawSetT_agrees H fuel st node key value
+
+theorem rawT_delete_agrees (H : Bytes → Bytes) (fuel : Nat) (st : HexRaw.St) (node : Item) (key : Path) :
+    rawDelete H fuel st node key = forget (rawDeleteT H fuel st node key) := rawDeleteT_agrees H fuel st node key
+
+theorem rawT_op_agrees (H : Bytes → Bytes) (db : Db) (root : Hash) (key : Bytes) (value : Option Bytes) :
+    rawOp H db root key value =
+      (match rawOpT H db root key value with
+       | (st, .ok h) => .ok (h, st)
+       | (_, .error e) => .error e) := rawOpT_agrees H db root key value
+
+/-- a failing `_set` wrote nothing: same database, only non-persist events added (every input) -/
+theorem raw_failed_set_writes_nothing (H : Bytes → Bytes) (h : Hash) (fuel : Nat) (st : HexRaw.St) (node : Item) (key : Path)
+    (value : Bytes) (he : (rawSetT H fuel st node key value).2 = .error (.missing h)) :
+    Quiet st (rawSetT H fuel st node key value).1 := (set_atomic_both H h fuel).1 st node key value he
+
+/-- a failing `_delete` wrote nothing (every input; hashes are 32 bytes long) -/
+theorem raw_failed_delete_writes_nothing (H : Bytes → Bytes) (hlen : ∀ b, (H b).length = 32) (h : Hash) (fuel : Nat)
+    (st : HexRaw.St) (node : Item) (key : Path) (he : (rawDeleteT H fuel st node key).2 = .error (.missing h)) :
+    Quiet st (rawDeleteT H fuel st node key).1 := delete_atomic_gen H hlen h fuel st node key (Or.inl he)
+
+/-- **`set` / `delete` end to end: a call that stops at a missing node leaves the database exactly as it was** -/
+theorem raw_failed_op_leaves_db (H : Bytes → Bytes) (hlen : ∀ b, (H b).length = 32) (db : Db) (root : Hash) (key : Bytes)
+    (value : Option Bytes) (h : Hash) (he : (rawOpT H db root key value).2 = .error (.missing h)) :
+    (rawOpT H db root key value).1.db = db := rawOpT_atomic_gen H hlen db root key value h he
 
 end PyTrie.Props.C07
